@@ -11,7 +11,7 @@ ID = "C02"
 LEVEL = "proof"
 PROPS_FILE = "C02.v"
 RUN_MODULE = "RunC02"
-TRANSLATOR_UNITS = []
+TRANSLATOR_UNITS = ["dsl"]
 SHARD = 120
 RULE = ("seeded random DSL programs: nesting depth<=3 of If/Elif/Else (multi-bit and signed conditions), Switch/Case (ints incl. "
         "negative and unrepresentable, multiple patterns, '-' strings with whitespace, empty Case, Default in the middle), "
